@@ -330,6 +330,13 @@ package ledger
 //@ declare chartAccepts(c ChartOfAccounts, addr string) bool
 //@ function postingAccepted(c ChartOfAccounts, p Posting) bool = chartAccepts(c, p.Source) && chartAccepts(c, p.Destination)
 
+// findAccountSchema (the recursive worker of FindAccountSchema): no panic for any chart and any non-empty segment list,
+// it terminates (the list shrinks), and it returns an account exactly when it returns no error.
+//@ func findAccountSchema(path []string, fixedSegments map[string]ChartSegment, variableSegment *ChartVariableSegment, account []string) (r *ChartAccount, err error)
+//@   property C29 C38
+//@   requires len(account) >= 1
+//@   ensures (err == nil) == (r != nil)
+
 //@ declare chartAccount(c ChartOfAccounts, addr string) *ChartAccount
 //@ assumed func (c *ChartOfAccounts) FindAccountSchema(account string) (r *ChartAccount, err error)
 //@   ensures (err == nil) == chartAccepts(deref(c), account)
